@@ -3,7 +3,7 @@
     Fsx/QidMapProofs.v, Fsx/QidConc.v. *)
 From Coq Require Import NArith String List.
 From P9V Require Import Base.Str gen.ConstGen gen.FsGen19 Fsx.Readdir Fsx.LocalDir Fsx.Paging Fsx.ReaddirProofs
-     Fsx.QidMap Fsx.QidMapProofs Fsx.Qid Fsx.Mode Fsx.LocalQidStable Fsx.LocalInfo Fsx.FsGenSpec19.
+     Fsx.QidMap Fsx.QidMapProofs Fsx.MountedListing Fsx.Qid Fsx.Mode Fsx.LocalQidStable Fsx.LocalInfo Fsx.FsGenSpec19.
 Import ListNotations.
 Open Scope list_scope.
 Open Scope N_scope.
@@ -62,6 +62,22 @@ Theorem C19_complete_local_server : forall q s msize count,
   = Some (number_from q 0 (s_names s)).
 Proof. exact local_server_complete. Qed.
 Print Assumptions C19_complete_local_server.
+
+(** a staticfs / composefs directory reached through any number of mounts ([d_wrap]: qidTransformFile wrappers, whose
+    Mapper tables change from call to call and are threaded through the loop), File.Readdir called directly: one call
+    returns name for name and Offset for Offset what readdir.Readdir returns, and the paged listing has every name once,
+    in order, at Offsets 1..n — from any Mapper state.  (The QIDs of the entries: C19_qids.) *)
+Theorem C19_mounted_call : forall s d off cnt es s',
+  dir_readdir s d off cnt = (es, s') ->
+  map name_off es = map name_off (static_readdir (fun _ => zero_qid) (map fst (d_ents d)) off cnt).
+Proof. exact dir_readdir_name_off. Qed.
+Print Assumptions C19_mounted_call.
+Theorem C19_complete_mounted_direct : forall s d cnt, 1 <= cnt ->
+  option_map (fun pages => map name_off (concat pages))
+    (page_loop_st (S (length (d_ents d))) (mounted_reader d cnt) s 0)
+  = Some (map name_off (number_from (fun _ => zero_qid) 0 (map fst (d_ents d)))).
+Proof. exact mounted_listing_complete. Qed.
+Print Assumptions C19_complete_mounted_direct.
 
 (** "every entry exactly once": the listed names are the directory's names in
     order; with distinct names each occurs at exactly one position *)
